@@ -11,7 +11,7 @@ PROP = 'C04'
 LEAN_MODULES = ['Glom.Props.C04']
 FACT_FILES = ['ExcFacts', 'C04Facts', 'TFacts', 'c04']
 READY = True
-THEOREMS_PER_MODULE = {'Glom.Props.C04': 34}
+THEOREMS_PER_MODULE = {'Glom.Props.C04': 38}
 
 # ---------------------------------------------------------------------------------------------------
 # SWITCH — classes on which the UNCHANGED glom breaks the property (reported to the lead, see the
@@ -27,40 +27,47 @@ HOSTILE_CLASSES = os.environ.get('C04_HOSTILE', '') == '1'
 
 MANIFEST = dict(
     text="Lean 4 theorems over a code-shaped model of glom()'s keyword defaulting, its two nested try blocks, "
-         "copy.copy of GlomErrors (incl. user __reduce__/__copy__), GlomError.wrap with the C3 linearisation of "
-         "the class it creates, _set_wrapped/_finalize: for EVERY exception class (any MRO, any constructor "
-         "Args -> Option Args, truthy or falsy), every .args and every (default, skip_exc, glom_debug): what leaves "
-         "glom() is an instance of the original class — and of every class the original was an instance of, so "
-         "every except clause keeps working (c04_class, c04_except_clauses) — with the same args (c04_args), is "
-         "also a GlomError when the class is an Exception subclass rebuildable from its args (c04_glomerror), the "
-         "default object itself is returned exactly for errors matching skip_exc at their origin (c04_selective), "
-         "glom_debug propagates the original object with its __cause__/__context__ (c04_debug_identity), otherwise "
-         "the original stays reachable (c04_chain), BaseException-only classes pass untouched; the C3 merge is "
-         "modelled for arbitrary hierarchies and proved to keep every base catchable (c04_c3_sound) and to succeed "
-         "with GlomError directly before Exception for every consistent exception MRO (c04_wrapper_mro), a wrapped "
-         "error wrapped again keeps its class (c04_wrap_of_wrapped, c04_rewrap_stable); a fault at any depth under "
-         "any nesting of tuple/dict/list/Spec/Call/Invoke/Iter frames reaches the handler unchanged "
-         "(c04_plain_frames), passes a Coalesce exactly when it does not match its skip_exc "
-         "(c04_coalesce_selective), is converted by glom's own try blocks exactly for the classes they name "
-         "(c04_conv_selective), and for EVERY nesting of plain / Coalesce / nested glom(default=, skip_exc=) "
-         "levels the level that replaces it is the first whose skip_exc matches what reaches it, what gets "
-         "through keeps every class of the original (c04_levels, c04_levels_faithful: induction over the "
-         "nesting). Per-run facts obligations by `decide` on tables regenerated from /repo (c04_facts_wf, "
-         "c04_internal_subtypes). Model tied to the code by differential execution on generated classes x fault "
-         "sources x fault positions x the keyword matrix x entry points.",
+         "copy.copy of GlomErrors (incl. user __reduce__/__copy__ and AttributeError's state-carrying reduce), "
+         "GlomError.wrap with the C3 linearisation of the class it creates, _set_wrapped/_finalize: for EVERY "
+         "exception class (any MRO, any constructor Args -> Option Args, truthy or falsy), every .args and every "
+         "(default, skip_exc, glom_debug): what leaves glom() is an instance of the original class — and of every "
+         "class the original was an instance of, so every except clause keeps working (c04_class, "
+         "c04_except_clauses) — with the same args (c04_args), is also a GlomError when the class is an Exception "
+         "subclass rebuildable from its args (c04_glomerror), the default object itself is returned exactly for "
+         "errors matching skip_exc at their origin (c04_selective; what was selected stays selected further out: "
+         "c04_selected_monotone), glom_debug propagates the original object with its __cause__/__context__ "
+         "(c04_debug_identity), otherwise the original stays reachable as __wrapped, the wrapper's own chain being "
+         "empty (c04_chain, c04_wrapper_fresh_chain), BaseException-only classes pass untouched; the C3 merge is "
+         "modelled for arbitrary hierarchies and proved to keep every base catchable and every given order "
+         "(c04_c3_sound, c04_c3_order, c04_c3_single, c04_wrapper_catchable) and to succeed with GlomError directly before "
+         "Exception for every consistent exception MRO (c04_wrapper_mro); a wrapped error wrapped again keeps its "
+         "MRO, an outer glom() keeps class and args of what an inner one raised (c04_wrap_of_wrapped, "
+         "c04_rewrap_stable, c04_wrap_idempotent); a fault at any depth under any nesting of "
+         "tuple/dict/list/Spec/Call/Invoke/Iter frames reaches the handler unchanged (c04_plain_frames), passes a "
+         "Coalesce exactly when it does not match its skip_exc (c04_coalesce_selective), is converted by glom's own "
+         "try blocks exactly for the classes they name (c04_conv_selective), and for EVERY nesting of plain / "
+         "iterator / Coalesce / nested glom(default=, skip_exc=) levels the level that replaces it is the first "
+         "whose skip_exc matches what reaches it, what gets through keeps every class of the original "
+         "(c04_levels, c04_levels_faithful, c04_nested_selective: induction over the nesting; c04_origin_sound: "
+         "mutual induction over specs). Per-run facts obligations by `decide` on tables regenerated from /repo "
+         "(c04_facts_wf, c04_internal_subtypes). Seven counter-example theorems: the four pre-repair shapes and the "
+         "three class kinds the current code does not cope with. Model tied to the code by differential execution "
+         "on generated classes x fault sources x fault positions x the keyword matrix x entry points x histories.",
     note="trusted: Lean kernel + {propext, Classical.choice, Quot.sound}; extractor (AST patterns of glom(), "
          "GlomError.wrap, _glom, Coalesce.glomit, _handle_list, Spec.glom/Glommer.glom, _t_eval branches, __copy__ "
-         "overrides, raise statements); harness/driver; CPython's exception construction, "
-         "BaseException.__reduce_ex__/copy.copy, raise/except (context chaining), the C constructors of "
-         "OSError/UnicodeDecodeError/ExceptionGroup as modelled in Glom/Model/C04*.lean and validated by the "
-         "correspondence only (the C3 merge is modelled and validated against type.__mro__ on generated "
-         "multiple-inheritance hierarchies). Args are None/int/str/bytes/opaque objects (no bool/float, so == is "
-         "structural); constructors that raise raise Exception subclasses. GENUINE DEFECT (gated by "
-         "HOSTILE_CLASSES, counter-example theorems on the current facts): type() in GlomError.wrap and "
-         "_set_wrapped/_finalize in glom() are unguarded.",
+         "overrides of glom's exception classes, raise statements); harness/driver; CPython's exception "
+         "construction, BaseException.__reduce_ex__ / AttributeError.__reduce__ / copy.copy, raise/except (context "
+         "chaining), the C constructors of OSError/UnicodeDecodeError/ExceptionGroup as modelled in "
+         "Glom/Model/C04*.lean and validated by the correspondence only (the C3 merge is modelled, proved sound and "
+         "validated against type.__mro__ on generated multiple-inheritance hierarchies). Args are "
+         "None/int/str/bytes/opaque objects/lists of exceptions (no bool/float, so == is structural); constructors "
+         "that raise raise Exception subclasses; repr() of the exception does not raise; no user __new__. GENUINE "
+         "DEFECT (gated by HOSTILE_CLASSES, counter-example theorems c04_class_counterexample_sealed / _frozen / "
+         "_foreign_copy): type() in GlomError.wrap stands outside its try, _set_wrapped/_finalize in glom() are "
+         "unguarded, a copy of another class with equal args is accepted.",
     technique='Lean 4 proof over exception classes as data (case analysis of the handler, C3 merge by induction, '
               'induction over frame contexts / nesting levels / mutual induction over specs) + facts obligations '
-              'by decide + differential correspondence',
+              'by decide + differential correspondence with self-contained (hermetic) histories',
     ref='DESIGN.md §3 C04, §6 reading 3')
 RULE = ('type-directed: an exception class is drawn from a catalogue generated from constructor-shape data '
         '(builtins incl. OSError/UnicodeDecodeError/ExceptionGroup whose C constructors rewrite or validate args, '
@@ -780,7 +787,11 @@ def gen_exception(rng):
     init, kw = init_for(rng, name, classes, mismatch=rng.random() < 0.03)
     exc = {'cls': name, 'init': init, 'kw': kw, 'set_args': None}
     r = rng.random()
-    if r < 0.08:
+    shape0, _ = ctor_root(name, classes)
+    if shape0 is not None and shape0['sig'][3] == 'needint' and r < 0.5:
+        # the validating constructor refuses the args the instance has now: re-creation raises ValueError
+        exc['set_args'] = [{'s': 'not an int'}] + [gen_aval(rng) for _ in range(rng.choice([0, 1]))]
+    elif r < 0.08:
         exc['set_args'] = [gen_aval(rng) for _ in range(rng.choice([0, 1, 2, 3]))]
     elif r < 0.16 and accepts_no_args(name, classes):
         exc['raise_class'] = True
@@ -1038,7 +1049,7 @@ def mutate(rng, case):
 
 
 def generate(rng, tier, scale, **focus):
-    n = (2600 if tier == 'quick' else 30000) * scale
+    n = (3400 if tier == 'quick' else 30000) * scale
     maxdepth = 4 if tier == 'quick' else 8
     last = None
     for i in range(n):
